@@ -212,6 +212,21 @@ func TestExample(t *testing.T) {
 			run.Label("family:ruled-tree")
 		case 1:
 			m := gen.ShapeSchema(t, gen.ShapeOpts{Depth: 3, Width: 4}, "m")
+			if m.Kind == ref.SObj && rapid.IntRange(0, 5).Draw(t, "big") == 0 {
+				// one container whose example is several KiB long, somewhere among the others (buffers
+				// that grew are handled differently from fresh ones by pools and builders)
+				big := &ref.SNode{Kind: ref.SArr}
+				unit := strings.Repeat("x", rapid.SampledFrom([]int{10, 100, 600}).Draw(t, "bigUnit"))
+				for total := rapid.SampledFrom([]int{600, 3000, 5000, 9000, 40000}).Draw(t, "bigTotal"); total > 0; total -= len(unit) + 3 {
+					big.Items = append(big.Items, &ref.SNode{Kind: ref.SLit, Lit: ref.KString, Tok: `"` + unit + `"`, Str: unit})
+				}
+				pos := rapid.IntRange(0, len(m.Props)).Draw(t, "bigPos")
+				np := append([]ref.SProp{}, m.Props[:pos]...)
+				np = append(np, ref.SProp{Key: "big", KeyTok: `"big"`, Val: big})
+				m.Props = append(np, m.Props[pos:]...)
+				feature = true
+				run.Label("shape:with-a-large-container")
+			}
 			ex, _ := gen.ExampleJSON(m)
 			c = Case{Spec: lib.Spec{Schema: string(gen.PrintSchema(m, nil))}, Plain: string(ex)}
 			m.Walk(func(n *ref.SNode) {
